@@ -86,6 +86,9 @@ C06_vertexproj(r) ==     \* projected corners
     \A x \in CornerRefs(r) :
         LET want == Op(r, x[1]).pproj[x[2] + 1] IN
         want # <<>> => Range(want) \subseteq Range(F(r).vproj[BV(r, x[1], x[2]) + 1])
+C06_vertexproj_exact(r) ==     \* ... and to nothing else: a vertex carries exactly the labels declared at the corners that use it
+    \A v \in 0..(NV(r) - 1) :
+        Range(F(r).vproj[v + 1]) = UNION { Range(Op(r, x[1]).pproj[x[2] + 1]) : x \in { y \in CornerRefs(r) : BV(r, y[1], y[2]) = v } }
 ExpPatchNames(r) == UNION { Range(Op(r, i).patch) : i \in 1..NLive(r) } \ {""}
 ExpPatchSides(r, n) == { <<i, s>> \in (1..NLive(r)) \X SideNames : Op(r, i).patch[SideIdx(s)] = n }
 FilePatch(r, n) == CHOOSE p \in Range(F(r).boundary) : p.name = n
@@ -196,7 +199,7 @@ C10_get_face(r) ==
         /\ IsCycle([j \in 1..4 |-> CornerOfPos(op, q[j])])
 
 Clauses == << "IndicesOK", "C06_ops_as_given", "C10_face_steps", "C10_face_edges", "C10_get_face", "C05_positions", "C05_shared", "C05_masterslave", "C05_dense",
-              "C06_blocks", "C06_vertexproj", "C06_patchnames", "C06_patchnames_unique", "C06_patchquads", "C06_patchtypes",
+              "C06_blocks", "C06_vertexproj", "C06_vertexproj_exact", "C06_patchnames", "C06_patchnames_unique", "C06_patchquads", "C06_patchtypes",
               "C06_faces", "C06_mesh_level", "C06_geometry_defined", "C06_vtk",
               "C07_on_block_edges", "C07_unique", "C07_present", "C07_no_extra" >>
 Holds(r, c) ==
@@ -206,6 +209,7 @@ Holds(r, c) ==
       [] c = "C05_positions" -> C05_positions(r) [] c = "C05_shared" -> C05_shared(r)
       [] c = "C05_masterslave" -> C05_masterslave(r) [] c = "C05_dense" -> C05_dense(r)
       [] c = "C06_blocks" -> C06_blocks(r) [] c = "C06_vertexproj" -> C06_vertexproj(r)
+      [] c = "C06_vertexproj_exact" -> C06_vertexproj_exact(r)
       [] c = "C06_patchnames" -> C06_patchnames(r) [] c = "C06_patchnames_unique" -> C06_patchnames_unique(r)
       [] c = "C06_patchquads" -> C06_patchquads(r) [] c = "C06_patchtypes" -> C06_patchtypes(r)
       [] c = "C06_faces" -> C06_faces(r) [] c = "C06_mesh_level" -> C06_mesh_level(r)
